@@ -26,6 +26,7 @@ Post ==
   /\ Check("tree pointer follows the storage cursor", Ev.ptr = ptr' /\ Ev.cursor = cursor')
 
 TAdd == Ev.op = "add" /\ Check("width", Ev.w \in 1..N) /\ Add(Ev.w) /\ Post
+TClear == Ev.op = "clear" /\ Clear /\ Post
 TUpdate ==
   /\ Ev.op = "update"
   /\ Update(Ev.idxs, Ev.pris)
@@ -49,7 +50,7 @@ TSample ==
   /\ Post
 
 TAccept == /\ l = Len(T.ev) + 1 /\ PrintT(<<"ACCEPT", tid>>) /\ l' = l + 1 /\ UNCHANGED <<vars, tid>>
-TNext == \/ (l <= Len(T.ev) /\ (TAdd \/ TUpdate \/ TSample) /\ l' = l + 1 /\ UNCHANGED tid)
+TNext == \/ (l <= Len(T.ev) /\ (TAdd \/ TClear \/ TUpdate \/ TSample) /\ l' = l + 1 /\ UNCHANGED tid)
          \/ TAccept
 TSpec == TInit /\ [][TNext]_tvars
 ================================================================================
